@@ -9,6 +9,7 @@ use crate::{
     scen::offer::{Mode as OfferMode, Offer},
     scen::actor::ActorScen,
     scen::coord::Coord,
+    scen::coord_real::CoordReal,
     scen::crash::Crash,
     scen::docs::{Docs, Mode as DocsMode},
     scen::events::Events,
@@ -42,7 +43,10 @@ pub fn run_property(prop: &str, tier: Tier, seed: u64, scale: f64) -> i32 {
         "C02" => vec![batch(&Offer { mode: OfferMode::State }, tier, seed, 60_000, 1_500_000, scale)],
         "C01" => vec![batch(&Pair { mode: PairMode::Converge }, tier, seed, 80_000, 1_500_000, scale)],
         "C03" => vec![batch(&Forge, tier, seed, 60_000, 1_500_000, scale)],
-        "C04" => vec![batch(&Swarm, tier, seed, 15_000, 300_000, scale)],
+        "C04" => vec![
+            batch(&Swarm { big_skew: false }, tier, seed, 15_000, 300_000, scale),
+            batch(&Swarm { big_skew: true }, tier, seed, 3_000, 60_000, scale),
+        ],
         "C05" => vec![batch(&QueryScen, tier, seed, 150_000, 3_000_000, scale)],
         "C06" => {
             level = "fault_enumeration";
@@ -50,18 +54,25 @@ pub fn run_property(prop: &str, tier: Tier, seed: u64, scale: f64) -> i32 {
             extra.insert("exhaustive_scope".into(), serde_json::json!("per sampled history the crash-point x loss-model (L1,L2) x single age-commit placement space is enumerated completely; the histories themselves (and L3/torn/EIO/double placements) are sampled"));
             vec![batch(&Crash, tier, seed, 4_000, 12_000, scale)]
         }
-        "C07" => vec![batch(&Docs { mode: DocsMode::Cap }, tier, seed, 100_000, 2_000_000, scale)],
+        "C07" => vec![
+            batch(&Docs { mode: DocsMode::Cap }, tier, seed, 100_000, 2_000_000, scale),
+            batch(&ActorScen { cap_focus: true }, tier, seed, 30_000, 600_000, scale),
+        ],
         "C09" => vec![
             batch(&Wire, tier, seed, 600_000, 10_000_000, scale),
             batch(&Decoders { mode: PureMode::Codecs }, tier, seed, 40_000, 1_000_000, scale),
         ],
         "C10" => vec![batch(&Session, tier, seed, 80_000, 1_500_000, scale)],
-        "C11" => vec![batch(&Coord, tier, seed, 25_000, 500_000, scale)],
-        "C12" => vec![batch(&Events, tier, seed, 120_000, 2_500_000, scale)],
-        "C14" => vec![batch(&ActorScen, tier, seed, 30_000, 800_000, scale)],
+        "C11" => vec![
+            batch(&Coord, tier, seed, 20_000, 400_000, scale),
+            batch(&CoordReal, tier, seed, 6_000, 150_000, scale),
+        ],
+        "C12" => vec![batch(&Events { only_download: false }, tier, seed, 120_000, 2_500_000, scale)],
+        "C14" => vec![batch(&ActorScen { cap_focus: false }, tier, seed, 30_000, 800_000, scale)],
         "C15" => vec![
             batch(&Docs { mode: DocsMode::Policy }, tier, seed, 40_000, 1_000_000, scale),
             batch(&Decoders { mode: PureMode::Filters }, tier, seed, 20_000, 500_000, scale),
+            batch(&Events { only_download: true }, tier, seed, 30_000, 600_000, scale),
         ],
         "C16" => vec![batch(&Docs { mode: DocsMode::Remove }, tier, seed, 70_000, 1_500_000, scale)],
         "C17" => vec![
@@ -87,17 +98,21 @@ fn replay_dispatch(prop: &str, scenario: &str, plan: Value) -> Result<(Option<cr
     match (prop, scenario) {
         (_, "offer") => replay_plan(&Offer { mode: OfferMode::State }, plan),
         (_, "offer-heads") => replay_plan(&Offer { mode: OfferMode::Heads }, plan),
-        (_, "events") => replay_plan(&Events, plan),
+        (_, "events") => replay_plan(&Events { only_download: false }, plan),
+        (_, "events-download-flag") => replay_plan(&Events { only_download: true }, plan),
         (_, "forge") => replay_plan(&Forge, plan),
         (_, "wire") => replay_plan(&Wire, plan),
         (_, "decoders-pure") => replay_plan(&Decoders { mode: PureMode::Codecs }, plan),
         (_, "heads-encoding-pure") => replay_plan(&Decoders { mode: PureMode::Heads }, plan),
         (_, "filters-pure") => replay_plan(&Decoders { mode: PureMode::Filters }, plan),
-        (_, "swarm") => replay_plan(&Swarm, plan),
+        (_, "swarm") => replay_plan(&Swarm { big_skew: false }, plan),
+        (_, "swarm-bigskew") => replay_plan(&Swarm { big_skew: true }, plan),
         (_, "session") => replay_plan(&Session, plan),
         (_, "query") => replay_plan(&QueryScen, plan),
-        (_, "actor") => replay_plan(&ActorScen, plan),
+        (_, "actor") => replay_plan(&ActorScen { cap_focus: false }, plan),
+        (_, "actor-capability") => replay_plan(&ActorScen { cap_focus: true }, plan),
         (_, "coord") => replay_plan(&Coord, plan),
+        (_, "coord-real") => replay_plan(&CoordReal, plan),
         (_, "crash") => replay_plan(&Crash, plan),
         (_, "docs-cap") => replay_plan(&Docs { mode: DocsMode::Cap }, plan),
         (_, "docs-policy") => replay_plan(&Docs { mode: DocsMode::Policy }, plan),
@@ -209,15 +224,16 @@ pub fn determinism(prop: Option<&str>, seeds: u64) -> i32 {
     if all || p == "C02" { twice(&Offer { mode: OfferMode::State }, seeds, &mut bad); }
     if all || p == "C13" { twice(&Offer { mode: OfferMode::Heads }, seeds, &mut bad); }
     if all || p == "C03" { twice(&Forge, seeds, &mut bad); }
-    if all || p == "C04" { twice(&Swarm, seeds, &mut bad); }
+    if all || p == "C04" { twice(&Swarm { big_skew: false }, seeds, &mut bad); twice(&Swarm { big_skew: true }, seeds.min(50), &mut bad); }
     if all || p == "C05" { twice(&QueryScen, seeds, &mut bad); }
     if all || p == "C06" { twice(&Crash, seeds.min(60), &mut bad); }
     if all || p == "C07" { twice(&Docs { mode: DocsMode::Cap }, seeds, &mut bad); }
     if all || p == "C09" { twice(&Wire, seeds, &mut bad); twice(&Decoders { mode: PureMode::Codecs }, seeds, &mut bad); }
     if all || p == "C10" { twice(&Session, seeds, &mut bad); }
-    if all || p == "C11" { twice(&Coord, seeds.min(100), &mut bad); }
-    if all || p == "C12" { twice(&Events, seeds, &mut bad); }
-    if all || p == "C14" { twice(&ActorScen, seeds, &mut bad); }
+    if all || p == "C11" { twice(&Coord, seeds.min(100), &mut bad); twice(&CoordReal, seeds.min(100), &mut bad); }
+    if all || p == "C12" { twice(&Events { only_download: false }, seeds, &mut bad); }
+    if all || p == "C14" { twice(&ActorScen { cap_focus: false }, seeds, &mut bad); }
+    if all || p == "C07" { twice(&ActorScen { cap_focus: true }, seeds, &mut bad); }
     if all || p == "C15" { twice(&Docs { mode: DocsMode::Policy }, seeds, &mut bad); }
     if all || p == "C16" { twice(&Docs { mode: DocsMode::Remove }, seeds, &mut bad); }
     if all || p == "C17" { twice(&Docs { mode: DocsMode::Peers }, seeds, &mut bad); twice(&Docs { mode: DocsMode::PeersClockFault }, seeds, &mut bad); }
